@@ -666,14 +666,14 @@ impl Monitor for Names {
         match self.0 {
             NW::C10 => {
                 let (a, b) = match tier {
-                    Tier::Quick => (60_000, 30_000),
+                    Tier::Quick => (400_000, 200_000),
                     Tier::Thorough => (3_000_000, 1_500_000),
                 };
                 vec![Stream::new("trees", scaled(a, budget)), Stream::new("repair-histories", scaled(b, budget))]
             }
             NW::C15 => {
                 let a = match tier {
-                    Tier::Quick => 80_000,
+                    Tier::Quick => 600_000,
                     Tier::Thorough => 4_000_000,
                 };
                 vec![Stream::new("forced-layouts", c15_forced().len() as u64 * 4), Stream::new("redundant-layouts", scaled(a, budget))]
